@@ -227,3 +227,10 @@ Theorem C05_cookie_decision_agrees_with_cookie_component :
                             Cookie.q_tcp q' = (if COOKIE_RESEND_MAX <=? tr + 1 then true else tcp)).
 Proof. exact Accept_cookie_equiv.cookie_decide_agrees. Qed.
 Print Assumptions C05_cookie_decision_agrees_with_cookie_component.
+
+(* the question comparison depends on nothing of the response but its question section: no header
+   bit (TC, rcode, opcode, ...) and no OPT content can make a mismatching question match *)
+Theorem C05_same_questions_reads_only_the_question : forall cfg q p p',
+  p_qd p = p_qd p' -> same_questions cfg q p = same_questions cfg q p'.
+Proof. exact same_questions_only_question. Qed.
+Print Assumptions C05_same_questions_reads_only_the_question.
